@@ -11,21 +11,22 @@
    Statements only; proofs in Proofs/Grammar*.v. *)
 From TV Require Import Base.Prelude Base.Utf8 Base.Winnow Gen.Consts Spec.Abnf Spec.Lex Spec.Defs Spec.Syntax.
 From TV Require Import Model.Tree Model.Parse Model.Document.
-From TV Require Import Proofs.GrammarBase Proofs.GrammarTop.
+From TV Require Import Proofs.LexEquivBase Proofs.GrammarBase Proofs.GrammarValueBase Proofs.GrammarValueSound Proofs.GrammarTop.
 
-(* TARGET (DESIGN.md section 6):
-     C02_tree : forall s d stmts T, parse_document s = POk d -> toml_text s stmts ->
-                  verdict stmts = Valid T -> abs_doc d = T.
-   PROVED: the same with the extra hypothesis `within_limits stmts = true`.  What is missing to drop
-   it: that a text has at most one derivation (the grammar is unambiguous), or equivalently that
-   a derivation OUTSIDE the limits always makes the parser fail (then `parse_document s = POk d`
-   would imply `within_limits stmts`).  C02_tree_witness below gives the unconditional fact for the
-   derivation the parser itself followed. *)
-Theorem C02_tree_partial : forall s d stmts T,
-  parse_document s = POk d -> toml_text s stmts -> verdict stmts = Valid T -> within_limits stmts = true ->
-  abs_doc d = T.
-Proof. exact c02_tree_partial. Qed.
-Print Assumptions C02_tree_partial.
+(* The tree of an accepted document is the tree its statements denote — for EVERY derivation of
+   the text whose statements are valid: keys, nesting, order, table kinds, every scalar (strings
+   after escape processing, integers, the exact decimal of floats, date-time fields), arrays
+   element by element, inline tables as the tables their pairs define. *)
+Theorem C02_tree : forall s d stmts T,
+  parse_document s = POk d -> toml_text s stmts -> verdict stmts = Valid T -> abs_doc d = T.
+Proof. exact c02_tree. Qed.
+Print Assumptions C02_tree.
+
+(* in particular all valid derivations of an accepted text denote the same tree *)
+Theorem C02_derivations_agree : forall s d l1 l2 T1 T2,
+  parse_document s = POk d -> toml_text s l1 -> toml_text s l2 -> verdict l1 = Valid T1 -> verdict l2 = Valid T2 -> T1 = T2.
+Proof. exact c02_derivations_agree. Qed.
+Print Assumptions C02_derivations_agree.
 
 (* For every accepted document there is a derivation of its text, within the limits, whose
    statements denote exactly the tree that was built: under the specification whenever that
@@ -36,6 +37,14 @@ Theorem C02_tree_witness : forall s d, parse_document s = POk d ->
                 /\ code_run (map stmt_den stmts) = Valid (abs_doc d).
 Proof. exact c02_tree_witness. Qed.
 Print Assumptions C02_tree_witness.
+
+(* ---- values ------------------------------------------------------------------------------------- *)
+(* whatever `value` accepts is a `val` of the grammar, and the tree value carries exactly the data
+   it denotes (vrel: absv v = den a, a well-defined and within the limits) *)
+Theorem C02_value_sound : forall i v i', value_ i = Ok v i' ->
+  exists t a, val_tok t a /\ splits i t i' /\ vrel (depth i) v a.
+Proof. exact value_sound. Qed.
+Print Assumptions C02_value_sound.
 
 (* ---- examples ----------------------------------------------------------------------------------- *)
 (* a = [1, [2, {b.c = "x"}], ] *)
@@ -55,7 +64,7 @@ Example C02_ex_tables :
                     ([x74], NAot [[]])].
 Proof. eexists. split; vm_compute; reflexivity. Qed.
 
-(* class U1 ([a.b.c] / [a] / b.x = 1): outside the claims of C01_complete / C02_tree_partial (verdict
+(* class U1 ([a.b.c] / [a] / b.x = 1): outside the claims of C01_complete / C02_tree (verdict
    is Undecided); the pinned code rejects it, recorded so that a change is visible *)
 Example C02_ex_u1 :
   verdict [SHeader [[x61]; [x62]; [x63]]; SHeader [[x61]]; SKeyVal [[x62]; [x78]] (AInt 1)] = Undecided
